@@ -148,12 +148,20 @@ pub(super) fn skip_set_tag<R: BufRead + Seek>(
     skip_tag(raw, 258)
 }
 
+/// `len` is the declared length of the collection that is being read: only an indefinite-length
+/// collection ends with a Break
 pub(crate) fn is_break_tag<R: BufRead + Seek>(
     raw: &mut Deserializer<R>,
+    len: &cbor_event::Len,
     location: &str,
 ) -> Result<bool, DeserializeError> {
     if raw.cbor_type()? == CBORType::Special {
         if raw.special()? == CBORSpecial::Break {
+            if let cbor_event::Len::Len(_) = len {
+                return Err(
+                    DeserializeError::from(DeserializeFailure::BreakInDefiniteLen).annotate(location),
+                );
+            }
             return Ok(true);
         }
         return Err(
